@@ -7,7 +7,7 @@
     PARAM = {"name": s, "kind": "posOnly"|"posOrKw"|"varPos"|"kwOnly"|"varKw",
              "ann": ["missing"] | ["text", s] | ["obj", HINT], "dflt": "none"|"ellipsis"|"value"}
     ENTRY = {"id": n, "module": s, "ns": [[name, BOUND], ...], "anns": [[name, ANN], ...], "ctor": null | [PARAM, ...]}
-    CLASS = {"kind": ["plain"] | ["dataclass"] | ["typedDict", total, [required..], [attrs..]] | ["namedTuple"] | ["tupleSub"],
+    CLASS = {"kind": ["plain"] | ["dataclass"] | ["typedDict", total, [required..] | null, [attrs..]] | ["namedTuple"] | ["tupleSub"],
              "mro": [ENTRY, ...], "fallback": null | [PARAM, ...]}
     OBJ   = {"cls": CLASS} | {"func": {"module": s, "anns": [[name, ANN], ...], "params": [PARAM, ...]}}
           | {"inst": CLASS, "call": null | [PARAM, ...]} | {"tupleAlias": {"module": s, "args": [HINT, ...], "variadic": b}}
@@ -17,9 +17,12 @@
 
   op "hints.get":       {"obj": OBJ, "env": ENV, "exhaustive": b}
         â†’ HINTS + {"wf": b, "typing": {"hints": ..} | {"err": "NameError"|"TypeError"}, "annotated": [names],
-                   "mutants": {"c05h": HINTS, "c18g": HINTS}}
-  op "hints.signature": {"obj": OBJ, "env": ENV}
-        â†’ SIG + {"wf": b, "param_annotations": [[name, PANN], ...] | null, "mutants": {"c15h": SIG, "c10g": [[name, PANN], ...] | null}}
+                   "mutants": {"c05h": HINTS, "c18g": HINTS, "pre87eadd9": HINTS}}
+  op "hints.signature": {"obj": OBJ, "env": ENV, "callers": [module, ...] (optional)}
+        â†’ SIG + {"wf": b, "param_annotations": [[name, PANN], ...] | null, "bind_annotations": [[name, PANN], ...] | null,
+                 "bind_targets": [TARGETS per caller], TARGETS = {"targets": [[name, HINT | null], ...]} | {"err": "NameError"|"TypeError"|"signature"},
+                 "mutants": {"c15h": SIG, "c10g": [[name, PANN], ...] | null, "pre87eadd9": SIG, "pre629e6a2": SIG,
+                             "preF5b21b1": [TARGETS per caller]}}
   op "hints.seq":       {"env": ENV, "objs": [OBJ, ...]}      -- a sequence of `signature` calls in one process
         â†’ {"seq": [SIG, ...], "c12h": [SIG, ...]}
   Not part of any theorem.
@@ -106,7 +109,8 @@ def kindOfJson (j : Json) : Except String Kind :=
   match j with
   | .arr #[.str "plain"] => pure .plain
   | .arr #[.str "dataclass"] => pure .dataclass
-  | .arr #[.str "typedDict", .bool t, req, attrs] => do pure (.typedDict t (â† jStrs req) (â† jStrs attrs))
+  | .arr #[.str "typedDict", .bool t, .null, attrs] => do pure (.typedDict t none (â† jStrs attrs))
+  | .arr #[.str "typedDict", .bool t, req, attrs] => do pure (.typedDict t (some (â† jStrs req)) (â† jStrs attrs))
   | .arr #[.str "namedTuple"] => pure .namedTuple
   | .arr #[.str "tupleSub"] => pure .tupleSub
   | _ => .error s!"class kind: {j}"
@@ -187,6 +191,14 @@ def pannsToJson (r : Except Fail (Dict PAnn)) : Json :=
   | .ok ps => .arr (ps.map fun p => Json.arr #[.str (U p.1), pannToJson p.2]).toArray
   | .error _ => .null
 
+def targetsToJson (r : Except BErr (Dict (Option Hint))) : Json :=
+  match r with
+  | .ok d => Json.mkObj [("targets", .arr (d.map fun p => Json.arr #[.str (U p.1), match p.2 with
+      | some h => hintToJson h
+      | none => .null]).toArray)]
+  | .error (.sig _) => Json.mkObj [("err", .str "signature")]
+  | .error (.eval e) => Json.mkObj [("err", .str (terrName e))]
+
 end HintsDrv
 open Typelib.Hints HintsDrv
 
@@ -203,14 +215,23 @@ def handleHints (st : St) (op : String) (j : Json) : Option (Except String (St Ã
       [("wf", .bool (wf o)), ("typing", typing),
        ("annotated", .arr ((annotatedNames o).map fun s => Json.str (U s)).toArray),
        ("mutants", Json.mkObj [("c05h", Json.mkObj (hintsFields (getTypeHintsC05h env o exh))),
-                               ("c18g", Json.mkObj (hintsFields (getTypeHintsC18g env o exh)))])]))
+                               ("c18g", Json.mkObj (hintsFields (getTypeHintsC18g env o exh))),
+                               ("pre87eadd9", Json.mkObj (hintsFields (getTypeHintsPre87eadd9 env o exh)))])]))
   | "hints.signature" => some do
     let o â† objOfJson (â† j.getObjVal? "obj")
     let env â† HintsDrv.envOfJson (â† j.getObjVal? "env")
+    let callers â† match j.getObjVal? "callers" with
+      | .ok c => jStrs c
+      | .error _ => pure []
     pure (st, Json.mkObj (sigFields (signatureOf env o) ++
       [("wf", .bool (wf o)), ("param_annotations", pannsToJson (paramAnnotations env o)),
+       ("bind_annotations", pannsToJson (bindAnnotations env o)),
+       ("bind_targets", .arr (callers.map fun c => targetsToJson (bindTargets env c o)).toArray),
        ("mutants", Json.mkObj [("c15h", Json.mkObj (sigFields (signatureOfC15h env o))),
-                               ("c10g", pannsToJson (paramAnnotationsC10g env o))])]))
+                               ("c10g", pannsToJson (paramAnnotationsC10g env o)),
+                               ("pre87eadd9", Json.mkObj (sigFields (signatureOfPre87eadd9 env o))),
+                               ("pre629e6a2", Json.mkObj (sigFields (signatureOfPre629e6a2 env o))),
+                               ("preF5b21b1", .arr (callers.map fun c => targetsToJson (bindTargetsPreF5b21b1 env c o)).toArray)])]))
   | "hints.seq" => some do
     let env â† HintsDrv.envOfJson (â† j.getObjVal? "env")
     let os â† match j.getObjVal? "objs" with
